@@ -44,7 +44,7 @@ def FTy.admits : FTy → FVal → Bool
   | _, none => true
   | .int true w, some (.int i) => decide (-(2 ^ (8 * w - 1) : Int) ≤ i ∧ i < 2 ^ (8 * w - 1)) && decide (0 < w)
   | .int false w, some (.int i) => decide (0 ≤ i ∧ i < 2 ^ (8 * w)) && decide (0 < w)
-  | .float w, some (.int i) => decide (0 ≤ i ∧ i < 2 ^ (8 * w)) && decide (0 < w)
+  | .float w, some (.int i) => decide (0 ≤ i ∧ i < 2 ^ (8 * w)) && decide (w = 2 ∨ w = 4 ∨ w = 8)
   | .bool, some (.int i) => decide (i = 0 ∨ i = 1)
   | .bin, some (.bytes _) => true
   | .fsb n, some (.bytes b) => decide (b.length = n)
